@@ -75,8 +75,8 @@ contract('BlockingDeque.remove', params=ARGS, returns='Any', requires=['INV_dequ
 
 # ---------------------------------------------------------------------------- RelayPool
 klass('Greenlet')
-klass('AsyncResult', ghost={'ready': 'Bool'})
-extern('AsyncResult.__init__', params={'self': 'AsyncResult'}, modifies=['self.ready'], ensures=['not self.ready'])
+klass('AsyncResult', ghost={'answered': 'Bool'})
+extern('AsyncResult.__init__', params={'self': 'AsyncResult'}, modifies=['self.answered'], ensures=['not self.answered'])
 extern('AsyncResult.get', params={'self': 'AsyncResult'}, returns='Any', yields=True,
        raises={'TransientRelayError': [], 'PermanentRelayError': [], 'OtherException': []})
 klass('RelayPoolClient', ['Greenlet'], module=MP,
